@@ -33,7 +33,7 @@ from typing import Dict, Optional, Tuple
 
 from .abnf import Grammar, Tree
 
-__all__ = ["validity", "explain", "BUILTINS", "VALUE", "LOGICAL", "NODES", "grammar", "OracleInternalError"]
+__all__ = ["validity", "explain", "parse_tree", "judge_with", "parse_grammar", "BUILTINS", "VALUE", "LOGICAL", "NODES", "grammar", "OracleInternalError"]
 
 VALUE, LOGICAL, NODES = "ValueType", "LogicalType", "NodesType"
 
@@ -110,11 +110,12 @@ def _number_out_of_range(text: str) -> bool:
 
 
 class _Judge:
-    def __init__(self, g: Grammar, text: str, registry, bounds) -> None:
+    def __init__(self, g: Grammar, text: str, registry, bounds, relax=frozenset()) -> None:
         self.ses = g.session(text)
         self.registry = registry
         self.lo, self.hi = bounds
         self.big_number = False
+        self.relax = relax  # named relaxations of the typing rules (used by classifiers only)
 
     def run(self) -> Optional[Tree]:
         tree = self.ses.parse("jsonpath-query")
@@ -160,7 +161,7 @@ class _Judge:
         for a, p in zip(args, params):
             self.arg(name, a, p)
         if ctx == "test":
-            if result not in (LOGICAL, NODES):
+            if result not in (LOGICAL, NODES) and "value-function-as-test" not in self.relax:
                 raise _Invalid("%s() returns %s and is used as a test expression" % (name, result))
         elif ctx == "comparable":
             if result != VALUE:
@@ -220,6 +221,35 @@ def explain(q: str, registry=None, int_bounds: Tuple[int, int] = (INT_MIN, INT_M
     if tree is None:
         return "invalid", strict_reason
     return "unjudged", "valid only if blank space is allowed inside the brackets of a singular query"
+
+
+def judge_with(g: Grammar, q: str, registry=None, int_bounds: Tuple[int, int] = (INT_MIN, INT_MAX),
+               relax=frozenset()) -> Tuple[str, str]:
+    """Validity of q under another grammar `g` (an `extended()` copy of the reordered RFC grammar, see
+    `parse_grammar()`) and optionally relaxed typing rules.  For classifiers: "which named relaxation of
+    the RFC would make this string valid?".  Two-valued + reason; number ranges are not looked at."""
+    if registry is None:
+        registry = BUILTINS
+    j = _Judge(g, q, registry, int_bounds, relax)
+    try:
+        tree = j.run()
+    except _Invalid as e:
+        return "invalid", str(e)
+    if tree is None:
+        return "invalid", "not derivable"
+    return "valid", ""
+
+
+def parse_grammar() -> Grammar:
+    """The RFC grammar with `function-argument` alternatives reordered (same language): base of relaxations."""
+    _load()
+    return _GP  # type: ignore[return-value]
+
+
+def parse_tree(q: str, relaxed: bool = False) -> Optional[Tree]:
+    """The reference AST (derivation tree) of q, or None if q is not in the (relaxed) grammar."""
+    _load()
+    return (_GR if relaxed else _GP).parse("jsonpath-query", q)  # type: ignore[union-attr]
 
 
 def validity(q: str, registry=None, int_bounds: Tuple[int, int] = (INT_MIN, INT_MAX)) -> str:
